@@ -234,6 +234,10 @@ func genEnum(r *sim.Rng, tier string) any {
 	lastRun.Handlers = pick(r, [][]string{{"regular"}, {"regular"}, {"stub:fail", "regular"}, {"stub:ok"}, {"regular", "stub:ok"}, {"stub:fail", "stub:ok"},
 		{"stub:fail_disabled"}, {"stub:fail_disabled", "stub:fail_typed"}, {"stub:fail_typed", "stub:fail"}, {"stub:fail_disabled", "regular"}})
 	lastRun.StubKeys = r.Range(1, 3)
+	if r.Bool(0.25) {
+		// a CA that answers (or fails) only after the caller's 60 s deadline has passed, or just before it
+		lastRun.CA.DelaySec = int64(pick(r, []int{59, 61, 61, 3600}))
+	}
 	for i := 0; i < r.Range(0, 2); i++ {
 		lastRun.CA.Comments = append(lastRun.CA.Comments, pick(r, []string{"", "c1"}))
 	}
